@@ -181,16 +181,19 @@ Fixpoint strip10 (fuel : nat) (c cnt : Z) : Z * Z :=
   | S f => if (c mod 10 =? 0) && (0 <? c) then strip10 f (c / 10) (cnt + 1) else (c, cnt)
   end.
 
-(* |x| = m * 2^e  |->  (C, K) with shortest C (no trailing zero) and |x| ~ C * 10^K *)
-Definition shortest_core (m : positive) (e : Z) : Z * Z :=
+(* The scaled interval of the float m * 2^e (m > 0): returns (Xl, Xc, Xu, B, q) with
+     (lower, central, upper) * 10^q = (Xl, Xc, Xu) / B
+   where central = m * 2^e and lower/upper are the midpoints towards the neighbouring
+   floats (computeBounds), and 10^q is just larger than the inverse of the unit 2^e2 in
+   which the three are integers (q = mulByLog2Log10(-e2) + 1). *)
+Definition ryu_scale (m : positive) (e : Z) : Z * Z * Z * Z * Z :=
   let mz := Zpos m in
-  (* computeBounds: the lower neighbour is closer at the border of an exponent *)
+  (* the lower neighbour is closer at the border of an exponent:
+     lower, central, upper = 2m-1, 2m, 2m+1 in units of 2^(e-1),
+     or 4m-1, 4m, 4m+2 in units of 2^(e-2) *)
   let border := (mz =? 2 ^ 52) && (-1074 <? e) in
   let e2 := if border then e - 2 else e - 1 in
-  (* 10^q larger than 2^-e2 : q = mulByLog2Log10(-e2) + 1 *)
   let q := Z.shiftr ((- e2) * 78913) 18 + 1 in
-  (* (lower, central, upper) * 2^e2 * 10^q = (Xl, Xc, Xu) / B  with
-     lower, central, upper = 2m-1, 2m, 2m+1  (4m-1, 4m, 4m+2 at a border) *)
   let PA := pow5 q in                     (* 1 when q <= 0 *)
   let PB := pow5 (- q) in                 (* 1 when q >= 0 *)
   let sa := Z.max (e2 + q) 0 in
@@ -200,19 +203,32 @@ Definition shortest_core (m : positive) (e : Z) : Z * Z :=
   let Xl := Xc - Z.shiftl PA sa in
   let Xu := Xc + Z.shiftl PA (if border then sa + 1 else sa) in
   let B := Z.shiftl PB sb in
+  (Xl, Xc, Xu, B, q).
+
+(* ryuDigits: given the admissible integers [l, u] and the floor c of the central value at
+   the finest scale (c0: central is exactly c; cup: central is closer to c+1), trim as many
+   digits as possible and round the central value at that scale, staying inside [l, u].
+   Returns (C, trimmed): the chosen decimal is C * 10^trimmed at the finest scale. *)
+Definition ryu_select (l c u : Z) (c0 cup : bool) : Z * Z :=
+  let '(c, u', c0', cnext, trimmed) := ryu_trim 40 l c u c0 0 0 in
+  let cup' := if 0 <? trimmed
+              then (5 <? cnext) || ((cnext =? 5) && (negb c0' || Z.odd c))
+              else cup in
+  (if (c <? u') && cup' then c + 1 else c, trimmed).
+
+(* |x| = m * 2^e  |->  (C, K) with shortest C (no trailing zero) and |x| ~ C * 10^K *)
+Definition shortest_core (m : positive) (e : Z) : Z * Z :=
+  let '(Xl, Xc, Xu, B, q) := ryu_scale m e in
   let '(ql, rl) := fast_div_eucl Xl B in
   let '(qc, rc) := fast_div_eucl Xc B in
   let '(qu, ru) := fast_div_eucl Xu B in
-  let incl := Z.even mz in
+  (* the end points are admissible only if the mantissa is even (ties round to even) *)
+  let incl := Z.even (Zpos m) in
   let l := if incl && (rl =? 0) then ql else ql + 1 in
   let u := if (ru =? 0) && negb incl then qu - 1 else qu in
   let c0 := rc =? 0 in
   let cup := match 2 * rc ?= B with Gt => true | Eq => Z.odd qc | Lt => false end in
-  let '(c, u', c0', cnext, trimmed) := ryu_trim 40 l qc u c0 0 0 in
-  let cup' := if 0 <? trimmed
-              then (5 <? cnext) || ((cnext =? 5) && (negb c0' || Z.odd c))
-              else cup in
-  let cf := if (c <? u') && cup' then c + 1 else c in
+  let '(cf, trimmed) := ryu_select l qc u c0 cup in
   let '(cs, z) := strip10 40 cf 0 in
   (cs, z + trimmed - q).
 
